@@ -1032,7 +1032,14 @@ def c14_parsers(res, tier, seed, deep, harness=None, profile="d"):
         else:
             sans.append(rnd.choice(["", "+", "#", "=", "x", "O-O-O-O", "Z9", "e9", "i4", "Q=Q=Q", "♔e4", "e4♔"]))
     reqs += [f"san {hexs(s)}" for s in sans]
-    views = {"fen": sv_nopanic, "san": sv_nopanic}
+    # make-move on positions whose counters sit at the top of the usize range (F9: `+ 1` panicked with overflow checks
+    # and wrapped without): every successor, in this build profile; the model saturates like the repaired code
+    top = [2**64 - 1, 2**64 - 2, 2**63, 2**32 - 1]
+    for f in fens[:60]:
+        parts = f.split(" ")
+        parts[4], parts[5] = str(rnd.choice(top + [0])), str(rnd.choice(top))
+        reqs.append("succ " + " ".join(parts))
+    views = {"fen": sv_nopanic, "san": sv_nopanic, "succ": sv_nopanic}
     impl, rc, err = wee.run_lines(harness or wee.harness_path(), reqs)
     drv, rc2, err2 = wee.run_driver(reqs)
     if len(impl) != len(reqs):
